@@ -5,8 +5,12 @@ import (
 	"math/big"
 	"runtime/debug"
 	"strings"
+	"sync/atomic"
 	"time"
 )
+
+// slowFailures counts sessions of this process that stalled or timed out.
+var slowFailures atomic.Int64
 
 // PartyResult is what one protocol party ended with.
 type PartyResult struct {
@@ -31,6 +35,18 @@ type PairOutcome struct {
 // party's pending Read fails.  Panics are recovered per goroutine.
 func RunPair(d *Duplex, a, b func() ([]*big.Int, error),
 	stallGrace, budget time.Duration) PairOutcome {
+
+	// Once a session of this process has stalled or timed out, later
+	// sessions (typically the shrinking attempts of that failure) use a
+	// short grace and budget, otherwise shrinking takes minutes.
+	if slowFailures.Load() > 0 {
+		if stallGrace > 1500*time.Millisecond {
+			stallGrace = 1500 * time.Millisecond
+		}
+		if budget > 20*time.Second {
+			budget = 20 * time.Second
+		}
+	}
 
 	type res struct {
 		who int
@@ -95,10 +111,12 @@ func RunPair(d *Duplex, a, b func() ([]*big.Int, error),
 			}
 			if stalled {
 				out.Stalled = true
+				slowFailures.Add(1)
 				d.Close()
 				closedAt = now
 			} else if now.After(deadline) {
 				out.TimedOut = true
+				slowFailures.Add(1)
 				d.Close()
 				closedAt = now
 			}
